@@ -171,6 +171,29 @@ def relocate_stream(rng, pid, kinds=ALL_KINDS):
     return out
 
 
+def reenter_stream(rng, pid):
+    """re-entrancy: the wrapped iterator's own `next()` asks the concurrent iterator around it how much is left (`has_more`,
+    `try_get_len`) -- at its k-th call, from whichever thread is inside. Implementation only (the model has no nested operation)"""
+    out = []
+    i = 0
+    progs = [[["next"] * 5], [["chunk 2 all", "chunk 2 all", "next", "next"]], [["bufnew 2", "bufnext all", "bufnext all", "bufnext all"]],
+             [["foreach 1"]], [["fold 2"]], [["next", "next"], ["next", "next", "next"]], [["values"]]]
+    for kind in ("iter", "iterref"):
+        for L in (3, 4):
+            for k in range(0, L + 1):
+                for pr in progs:
+                    c = make_source(rng, "%s-re%d" % (pid, i), kind, L, hint=rng.choice(["exact", "exact", "inexact"]))
+                    c.threads = [list(t) for t in pr]
+                    c.reenter = k
+                    c.owner = "intoseq all"
+                    if len(pr) > 1:
+                        c.sched = rand_sched(rng, 2, 12)
+                    c.tags = {"implonly", "nomodel"}
+                    out.append(c)
+                    i += 1
+    return out
+
+
 WAIT_BASE = 1000000
 
 
@@ -544,7 +567,9 @@ def huge_then_skip_stream(rng, pid, clones=False):
         for L in (2, 5, 8):
             for pre in (0, 1, 2):
                 for huge in ("chunk %d all" % (MAXW - pre), "chunk %d 1" % (MAXW - pre - 1), "foreach %d" % (MAXW - pre)):
-                    for tail in (["skip", "hasmore", "next", "len", "next"], ["skip", "skip", "next", "chunk 2 all", "hasmore"]):
+                    for tail in (["skip", "hasmore", "next", "len", "next"], ["skip", "skip", "next", "chunk 2 all", "hasmore"],
+                                 # enough single pulls after the skip to carry a counter that was *not* reset over the wrap
+                                 ["skip"] + ["next"] * (pre + 4) + ["hasmore", "len"]):
                         c = make_source(rng, "%s-hs%d" % (pid, i), kind, L)
                         prog = ["next"] * pre + [huge] + list(tail)
                         if clones and kind in ("slice", "range", "vecref"):
@@ -803,7 +828,7 @@ def stream_for0(pid, tier, seed):
     big = tier != "quick"
     if pid in ("C01", "C02", "C04"):
         return defects + pulls_stream(rng, tier, pid) + half_stream(rng, pid) + nth_stream(rng, pid) + liar_stream(rng, pid) + zst_stream(rng, pid) + pod_stream(rng, pid) + \
-            wrapper_nth_stream(rng, pid) + last_stream(rng, pid) + forget_stream(rng, pid) + relocate_stream(rng, pid) + stall_stream(rng, pid)
+            wrapper_nth_stream(rng, pid) + last_stream(rng, pid) + forget_stream(rng, pid) + relocate_stream(rng, pid) + stall_stream(rng, pid) + reenter_stream(rng, pid)
     if pid == "C03":
         cases = defects + pulls_stream(rng, tier, pid, prof=dict(loops=False, query=False, drain=0.2))
         cases += half_stream(rng, pid) + nth_stream(rng, pid) + liar_stream(rng, pid) + zst_stream(rng, pid) + pod_stream(rng, pid)
@@ -937,7 +962,7 @@ def stream_for0(pid, tier, seed):
         return defects + pulls_stream(rng, tier, pid, prof=dict(skip=True, owners=["intoseq all", "intoseq 1", "intoseq 2", "intoseq 0"]), exh=False, n_random=2000 if not big else 80000) + liar_stream(rng, pid) + zst_stream(rng, pid) + \
             [c for c in boundary_stream(rng, tier) if c.kind == "range" and c.owner != "drop"][::2] + next_then_nth_stream(rng, pid) + \
             spare_stream(rng, pid) + pod_stream(rng, pid) + huge_then_skip_stream(rng, pid) + \
-            [c for c in half_stream(rng, pid, kinds=("iter", "iterref", "vec")) if c.owner != "drop"]
+            [c for c in half_stream(rng, pid, kinds=("iter", "iterref", "vec")) if c.owner != "drop"] + reenter_stream(rng, pid)
     if pid == "C11":
         return defects + pulls_stream(rng, tier, pid, prof=dict(skip=True, query=True, drain=0.3), n_random=2000 if not big else 80000, exh=False) + \
             exhaustive("C11-x2", small_bases(rng, [[["next", "len"], ["chunk 2 all", "hasmore"]], [["hasmore", "next"], ["skip", "len"]]], ["slice", "vec", "range", "iter"]), 2, 8 if not big else 11) + \
@@ -1002,7 +1027,8 @@ def stream_for0(pid, tier, seed):
             twins.append(t)
         return cases + twins
     if pid == "C16":
-        return [c for c in defects if c.id[0] in "HR" or c.id.startswith("D10")] + boundary_stream(rng, tier) + huge_chunk_stream(rng, pid)
+        return [c for c in defects if c.id[0] in "HR" or c.id.startswith("D10")] + boundary_stream(rng, tier) + huge_chunk_stream(rng, pid) + \
+            huge_then_skip_stream(rng, pid)
     if pid == "C17":
         return defects + pulls_stream(rng, tier, pid, prof=dict(skip=True), exh=False, n_random=2000 if not big else 80000) + \
             [c for c in boundary_stream(rng, tier) if c.kind == "range"][::3] + huge_chunk_stream(rng, pid) + spare_stream(rng, pid) + rawget_stream(rng, pid)
